@@ -13,6 +13,7 @@ chmod +x $OUT/run.sh
 cat $OUT/list | xargs -P $J -n 2 $OUT/run.sh
 bad=0
 for f in $OUT/*.txt; do
+  if grep -q "patch does not apply" $f; then echo "NOT-APPLICABLE $(basename $f .txt): the stored patch no longer applies to the current tree (re-base it)"; continue; fi
   r=$(grep -v '^UNDECIDED' $f | tr '\n' ' ')
   if [ -n "$r" ]; then echo "FALSE-ALARM-ON-REFACTORING $(basename $f .txt): $r"; bad=1; fi
 done
